@@ -505,6 +505,17 @@ def build_checked(ctx, name, l):
         if dm != d or bm != base:
             ctx.disagree("c10.builder", "model builder mp4_build and its Python twin differ on layout %s" % name,
                          {"layout": name, "desc": jlayout(l), "first_diff": CM.first_diff(dm, d), "model_len": len(dm), "py_len": len(d)})
+        # the hypothesis of the theorems on this layout: mp4_wf (mp4_build l), judged by the model and by the Python walker
+        r = ctx.model.call("mp4_wf", hx(d))
+        try:
+            W.mp4(d)
+            pw = True
+        except W.Bad:
+            pw = False
+        ctx.count("layout-wf:%s" % (r == "ok 1"))
+        if (r == "ok 1") != pw:
+            ctx.disagree("c10.builder", "model mp4_wf and the Python walker disagree on built layout %s" % name,
+                         {"layout": name, "desc": jlayout(l), "model": r, "walker": pw})
     return d
 
 
